@@ -4,9 +4,11 @@ on the unspent set. -/
 namespace GV.Chain
 
 /-- what `verify_sorted_and_unique` enforces on a body: no input and no output commitment occurs
-twice. In `Model/Chain.lean` this check is carried by the `body:` tag set by the harness, it is not
-computed — theorems that need it take it as a hypothesis. -/
+twice (`dupInBody` in `validateBody`; see `sane_of_validateBody`). -/
 def Blk.Sane (b : Blk) : Prop := b.ins.Nodup ∧ (b.outs.map (·.1)).Nodup
+
+theorem sane_of_validateBody (p : Params) (outs : List OutDef) (b : Blk) (iv : Nat)
+    (h : validateBody p outs b iv = none) : b.Sane := validateBody_none_nodup p outs b iv h
 
 /-- membership in the unspent set after a block, in terms of the set before -/
 theorem effects_has (s : UState) (b : Blk) (o : Nat) :
